@@ -286,4 +286,55 @@ theorem fix_stable (p ext enc r : List Nat) (b : Bool)
     · rw [if_neg hl']
       simp [hnp']
 
+theorem detectUnicode_stable (p ext : List Nat) (b : Bool) (r : Enc × Bool)
+    (h : detectUnicode p false = some r) : detectUnicode (p ++ ext) b = some r := by
+  unfold detectUnicode at *
+  by_cases hp : prefix10.isPrefixOf p = true
+  · have hp' : prefix10.isPrefixOf (p ++ ext) = true := by
+      rw [List.isPrefixOf_iff_prefix] at *
+      exact hp.trans (List.prefix_append p ext)
+    have hlen : 10 ≤ p.length := by
+      rw [List.isPrefixOf_iff_prefix] at hp
+      have := hp.length_le; simp [prefix10] at this; omega
+    simp only [hp, hp', if_true] at *
+    have d10 : (p ++ ext).drop 10 = p.drop 10 ++ ext := by
+      rw [List.drop_append_of_le_length hlen]
+    cases hq : findQuote (p.drop 10) with
+    | none => simp [hq] at h
+    | some k =>
+      have hk := findQuote_lt _ _ hq
+      simp only [hq] at h
+      simp only [d10, findQuote_append _ ext k hq]
+      rw [List.take_append_of_le_length (by omega)]; exact h
+  · simp only [hp, Bool.false_eq_true, if_false, Bool.false_or] at h
+    have hnp : isPrefixOf10 p = false := by
+      cases hx : isPrefixOf10 p with
+      | false => rfl
+      | true => simp [hx] at h
+    simp only [hnp, Bool.not_false, if_true] at h
+    have hp' : prefix10.isPrefixOf (p ++ ext) = false := by
+      cases hq : prefix10.isPrefixOf (p ++ ext) with
+      | false => rfl
+      | true =>
+        rw [List.isPrefixOf_iff_prefix] at hq
+        by_cases hlen : prefix10.length ≤ p.length
+        · have := List.prefix_of_prefix_length_le hq (List.prefix_append p ext) hlen
+          rw [← List.isPrefixOf_iff_prefix] at this
+          exact absurd this hp
+        · have := List.prefix_of_prefix_length_le (List.prefix_append p ext) hq (by omega)
+          unfold isPrefixOf10 at hnp
+          rw [← List.isPrefixOf_iff_prefix] at this
+          rw [this] at hnp; cases hnp
+    have hnp' : isPrefixOf10 (p ++ ext) = false := by
+      cases hx : isPrefixOf10 (p ++ ext) with
+      | false => rfl
+      | true =>
+        unfold isPrefixOf10 at *
+        rw [List.isPrefixOf_iff_prefix] at hx
+        have := (List.prefix_append p ext).trans hx
+        rw [← List.isPrefixOf_iff_prefix] at this
+        rw [this] at hnp; cases hnp
+    simp only [hp', Bool.false_eq_true, if_false, hnp', Bool.not_false, Bool.or_true, if_true]
+    exact h
+
 end CssVerif.Codec
